@@ -12,6 +12,7 @@ import SnowModel.Ops.FlakeStats
 import SnowModel.Ops.Flake
 import SnowModel.Ops.Gen
 import SnowModel.Ops.Snowing
+import SnowModel.Ops.Snowing2D
 
 open Lean Snow
 
@@ -26,6 +27,7 @@ def allOps : List (String × Op) :=
   ++ Snow.Ops.flakeOps
   ++ Snow.Ops.genOps
   ++ Snow.Ops.snowingOps
+  ++ Snow.Ops.snowing2DOps
 
 def handle (line : String) : String :=
   match Json.parse line with
